@@ -35,7 +35,6 @@ THEOREMS = ["ESV.C12.interleave_safe", "ESV.C12.interleave_safe_start", "ESV.C12
             "ESV.C12.shared_inventory_pinned"]
 THREADS = "harness.impl_cache:run_threads"
 COMPILE_THREADS = "harness.impl_cache:run_compile_threads"
-SHARED_LEAN = os.path.join(core.LEAN, "ESV", "Gen", "Shared.lean")
 
 
 def gen_threads(r: random.Random, pools: c11.Pools, n_threads: int, max_calls: int, flavour: str) -> list[list[dict]]:
@@ -80,6 +79,30 @@ def gen_samekeys(r: random.Random, n_threads: int) -> list[list[dict]]:
     return out
 
 
+def gen_cold_case(r: random.Random, pools: c11.Pools, i: int) -> dict:
+    """cold start: a fresh interpreter in which nothing of the implementation has been imported or run; its very first
+    compile()/convert() calls are made by 6-8 threads at once (lazy initialisation, first-use caches, imports inside functions)"""
+    n = r.choice([6, 7, 8])
+    threads = []
+    for t in range(n):
+        c = r.random()
+        if c < 0.55 and pools.cold_rs:
+            first = copy.deepcopy(r.choice(pools.cold_rs))              # convert() of a set with assignments, ctx ops, keywords, message switches
+        elif c < 0.8 and pools.cold_cd:
+            first = copy.deepcopy(r.choice(pools.cold_cd))              # compile() + convert() of such a script
+        elif pools.graphs and c < 0.9:
+            g = r.choice(pools.graphs)
+            first = copy.deepcopy(r.choice([x for x in g if not x.get("macros_only")] or g))   # compile() of a file with imports
+        else:
+            first = copy.deepcopy(r.choice(pools.cold_cd or pools.texts))
+        calls = [first]
+        if r.random() < 0.5 and pools.cold_rs:
+            calls.append(copy.deepcopy(r.choice(pools.cold_rs)))
+        threads.append(calls)
+    return {"threads": threads, "mode": "free", "cold": True, "switchinterval": r.choice([1e-6, 1e-6, 1e-5]), "warm": False, "budget_s": 150,
+            "instrument": False, "flavour": "cold"}
+
+
 def gen_case(r: random.Random, pools: c11.Pools, i: int, sched: bool) -> dict:
     flavour = r.choice(["mixed", "mixed", "decompile", "compile", "samekeys"])
     if flavour == "samekeys":
@@ -95,17 +118,6 @@ def gen_case(r: random.Random, pools: c11.Pools, i: int, sched: bool) -> dict:
     n = r.choice([2, 3, 4, 6, 8])
     return {"threads": gen_threads(r, pools, n, 3, flavour), "mode": "free", "switchinterval": r.choice([1e-6, 1e-6, 1e-5, 1e-4]),
             "warm": r.random() < 0.5, "budget_s": 150, "instrument": False, "flavour": flavour}
-
-
-def write_shared(items: list[str]) -> bool:
-    src = shared_inventory.lean_source(items)
-    old = open(SHARED_LEAN).read() if os.path.exists(SHARED_LEAN) else None
-    if old != src:
-        with core._Lock():
-            with open(SHARED_LEAN, "w") as fh:
-                fh.write(src)
-        return True
-    return False
 
 
 def deep_text(r: random.Random, depth: int, tag: int) -> str:
@@ -219,7 +231,7 @@ def run(run: core.Run) -> int:
     jobs = core.jobs_for(run.tier)
     stamp0 = fresh.tree_stamp()
     inv = shared_inventory.inventory(core.REPO)
-    write_shared(inv)
+    shared_inventory.write_lean(inv)
     prep = core.lean_prepare(MODULES)
     aud = core.audit(THEOREMS, MODULES) if prep["proofs_ok"] else {"obligations": len(THEOREMS), "discharged": 0, "ok": False, "theorems": {}}
     drv = core.Driver() if prep["driver_ok"] else None
@@ -227,10 +239,7 @@ def run(run: core.Run) -> int:
     inv_new: list[str] = []
     inv_gone: list[str] = []
     if drv is not None:
-        rep = drv.batch([{"op": "cache.shared"}])[0]
-        pinned = [x[0] for x in rep.get("shared", [])]
-        inv_new = [x for x in inv if x not in pinned]
-        inv_gone = [x for x in pinned if x not in inv]
+        pinned, inv_new, inv_gone = shared_inventory.diff_with_pinned(drv, inv)
         if inv_new or inv_gone:
             run.broken_tie("static inventory C12: the writes to process-wide state in the current source differ from the list the thread model is built over "
                            f"(lean/ESV/Cache/Shared.lean): new {inv_new}, no longer present {inv_gone}", {"new": inv_new, "gone": inv_gone})
@@ -251,7 +260,10 @@ def run(run: core.Run) -> int:
         if not fresh.failed(x) and x.get("process", {}).get("decompiler_imported"):
             raise core.Infra("the compiler-only reference process has the decompiler imported: the scenario no longer tests what it is meant to")
     deep_outs = fresh.run_fresh_many([(COMPILE_THREADS, {k: v for k, v in dc.items() if k != "mode"}) for dc in deep_cases], max(2, jobs // 2), timeout=200)
+    lazy_like = any("@fn" in x or x.startswith("default-arg|") for x in inv_new)
+    n_cold = (10 if quick else 100) + (20 if (object_like or lazy_like) else 0)
     cases = [gen_case(run.rng, pools, i, True) for i in range(n_sched)] + [gen_case(run.rng, pools, i, False) for i in range(n_free)]
+    cases += [gen_cold_case(run.rng, pools, i) for i in range(n_cold)]
     instr = []
     for i in range(n_instr):
         c = gen_case(run.rng, pools, i, i % 3 != 2)
@@ -284,6 +296,9 @@ def run(run: core.Run) -> int:
                 continue
             o = o2
         st["runs_" + c["mode"]] += 1
+        st["runs_cold_start"] += bool(c.get("cold"))
+        if c.get("cold") and o.get("implementation_modules_before_threads"):
+            raise core.Infra("a cold-start run had modules of the implementation imported before its threads started: the scenario no longer tests a cold start")
         st["runs_warm"] += bool(c.get("warm"))
         st["threads"] += len(c["threads"])
         st["calls"] += sum(len(t) for t in c["threads"])
@@ -395,7 +410,7 @@ def run(run: core.Run) -> int:
         run.broken_tie("Lean obligations of C12 do not check (build/audit)", {"theorems": THEOREMS, "log": prep["log"][-3000:], "audit": aud})
     c11.cleanup_projects()
     if (inv_new or inv_gone) and pinned:
-        write_shared(pinned)
+        shared_inventory.write_lean(pinned)
     sample = [{"mode": c["mode"], "threads": [[x["kind"] for x in t] for t in c["threads"]], **{k: c[k] for k in ("seed", "p_switch", "warm", "antlr", "switchinterval") if k in c}} for c in cases[:2] + cases[n_sched:n_sched + 1]]
     cov = core.proof_coverage(run, prep, aud, MODULES, THEOREMS, {
         "explanation": "Kernel-checked theorem: under every interleaving of the locked sections of graph_utils' cache functions, threads that own their graphs and follow the clear "
